@@ -15,6 +15,11 @@ LAY = ['TEMP', 'UWND', 'VWND']
 
 def gen(rng):
     nx, ny = rng.randint(20, 24), rng.randint(17, 19)      # the index record and the reader's LENH-sized read must fit into one record
+    if rng.random() < 0.25:
+        # 1000 or more points in one direction: the thousands travel as a letter in the two-character grid id
+        # (CHAR(n/1000 + 64): '@' = 0, 'A' = 1000, 'B' = 2000), the header holds n mod 1000
+        big, small = rng.choice([1003, 1200, 2048, 1090]), rng.randint(3, 5)
+        nx, ny = (big, small) if rng.random() < 0.5 else (small, big)
     nlev = rng.randint(2, 3)                       # surface + upper levels
     sfc = rng.sample(SFC, rng.randint(1, 2))
     lay = rng.sample(LAY, rng.randint(1, 2))
@@ -34,8 +39,14 @@ def gen(rng):
     return dict(nx=nx, ny=ny, levels=levels, sfc=sfc, lay=lay, t0=t0, offs=offs, fields=fields)
 
 
-def _label(t, lev, key, nexp, prec, var1):
-    txt = t.strftime('%y%m%d%H') + '00' + '%2d' % lev + '99' + key.ljust(4)
+def _gridid(nx, ny):
+    if nx >= 1000 or ny >= 1000:
+        return chr(nx // 1000 + 64) + chr(ny // 1000 + 64)
+    return '99'
+
+
+def _label(t, lev, key, nexp, prec, var1, gid='99'):
+    txt = t.strftime('%y%m%d%H') + '00' + '%2d' % lev + gid + key.ljust(4)
     txt += '%4d' % nexp + '%14.7E' % prec + '%14.7E' % var1
     assert len(txt) == 50, txt
     return txt.encode('ascii')
@@ -71,7 +82,7 @@ def build(c):
                 rows = c['fields']['%d|%d|%s' % (ti, li, key)]
                 b, nexp, var1, ksum, un = pack_with_model(rows)
                 prec = 2.0 ** (nexp - 8) if False else 0.0
-                recs.append(_label(t, li, key, nexp, 2.0 ** nexp / 254.0, float(var1)) + bytes(x for row in b for x in row))
+                recs.append(_label(t, li, key, nexp, 2.0 ** nexp / 254.0, float(var1), _gridid(nx, ny)) + bytes(x for row in b for x in row))
                 sums[li, key] = ksum
                 meta['%d|%d|%s' % (ti, li, key)] = dict(nexp=nexp, decoded=[[str(x) for x in row] for row in un])
         lvltxt = ''
@@ -84,9 +95,9 @@ def build(c):
         hdr = 'TEST' + '  0' + ' 1'
         vals = [0., 0., 1., 1., 0., 0., 0., 1., 1., 10., -100., 0.]
         hdr += ''.join([('%7.2f' % v)[:7] for v in vals])
-        hdr += '%3d%3d%3d' % (nx, ny, len(c['levels'])) + ' 2' + '%4d' % lenh
+        hdr += '%3d%3d%3d' % (nx % 1000, ny % 1000, len(c['levels'])) + ' 2' + '%4d' % lenh
         assert len(hdr) == 108
-        idx = (_label(t, 0, 'INDX', 0, 0., 0.) + (hdr + lvltxt).encode('ascii'))
+        idx = (_label(t, 0, 'INDX', 0, 0., 0., _gridid(nx, ny)) + (hdr + lvltxt).encode('ascii'))
         if len(idx) > recl:
             raise lib.HarnessError('index record does not fit: grid too small for the variable lists')
         out += idx.ljust(recl, b' ')
